@@ -329,6 +329,10 @@ def build(spec):
             bcplx = False   # real sparse matrix with complex rhs: documented TypeError (malformed stream)
         shp = (n,) if k is None else (n, k)
         b = rng.standard_normal(shp) + (1j * rng.standard_normal(shp) if bcplx else 0)
+        if k is not None and k >= 2 and spec.get("colscale", bool(rng.random() < 0.35)):
+            # load cases of very different magnitude in ONE block (exact power-of-two factors): every column is its own system
+            cs = np.array([1.0, 2.0 ** -30, 2.0 ** -37][:k])
+            b = b * rng.permutation(cs)[None, :]
         choices = solver_choices(cls, sparse, cplx)
         sname = spec.get("solver", choices[int(rng.integers(0, len(choices)))] if rng.random() < 0.6 else None)
         flagmode = spec.get("flags", str(rng.choice(["none", "none", "hermitian", "symmetric", "both"])))
@@ -548,9 +552,11 @@ def oracle(c, out):
         x = out["x"]
         if x.shape != c.b.shape:
             return f"x has shape {x.shape}, rhs has shape {c.b.shape}"
-        r = _rel(A @ x - c.b, c.b, np.abs(A).max() * np.abs(x).max())
-        if not r <= tol:
-            return f"LinSolve: |A x - b| / scale = {r:.3e} > {tol:.1e}"
+        X2, B2 = x.reshape(x.shape[0], -1), c.b.reshape(c.b.shape[0], -1)
+        for j in range(B2.shape[1]):   # column by column: each right-hand side is its own system
+            r = _rel(A @ X2[:, j] - B2[:, j], B2[:, j], np.abs(A).max() * np.abs(X2[:, j]).max())
+            if not r <= tol:
+                return f"LinSolve: column {j}: |A x - b| / scale = {r:.3e} > {tol:.1e}"
     elif c.stream == "inverse":
         B = out["B"]
         r = _rel(A @ B - np.eye(A.shape[0]), [1.0])
@@ -620,7 +626,7 @@ def model_req(c):
     raise ValueError(c.stream)
 
 
-def _cmp(ctx, c, what, impl, model, tol):
+def _cmp(ctx, c, what, impl, model, tol, percol=False):
     """normwise comparison |impl - model| <= tol * max|model|"""
     I = np.asarray(dense(impl))
     M = dec(model)
@@ -631,6 +637,14 @@ def _cmp(ctx, c, what, impl, model, tol):
     if I2.shape != M.shape:
         ctx.disagree(c.stream, {"spec": c.spec, "name": c.name, "what": what}, list(I.shape), list(M.shape), "shape mismatch")
         return False
+    if percol and M.ndim == 2 and M.shape[1] > 1:
+        ok = True
+        for j in range(M.shape[1]):
+            scj = max(float(np.max(np.abs(M[:, j]))), 1e-300)
+            ok = ctx.compare_close(c.stream, {"spec": c.spec, "name": c.name, "what": f"{what}[:, {j}]"}, I2[:, j].astype(complex).flatten(),
+                                   [complex(v) for v in M[:, j].flatten()], rtol=0.0, atol=tol, scale=scj,
+                                   key=(c.name, what, j)) and ok
+        return ok
     sc = max(float(np.max(np.abs(M))) if M.size else 0.0, 1e-30)
     return ctx.compare_close(c.stream, {"spec": c.spec, "name": c.name, "what": what}, I2.astype(complex).flatten(),
                              [complex(v) for v in M.flatten()], rtol=0.0, atol=tol, scale=sc,
@@ -646,7 +660,7 @@ def compare(ctx, c, out, mres):
     tol = tol_of(c)
     tol2 = tol * max(1.0, c.cond) if c.stream != "inverse" else tol * max(1.0, c.cond)
     if c.stream == "linsolve":
-        _cmp(ctx, c, "x", out["x"], mo["x"], tol)
+        _cmp(ctx, c, "x", out["x"], mo["x"], tol, percol=True)
         _cmp(ctx, c, "db", out["db"], mo["db"], tol)
         _cmp(ctx, c, "dA", out["dA"], mo["dA"], tol2)
         if isinstance(out["dA"], pm.DyadCarrier) != bool(mo["dA_dyad"]):
